@@ -90,7 +90,9 @@ Ret ==
                   THEN Add(~st.stopArmed, "StopHitsLive", Ev.err.msg)
                   ELSE {})
           \* C11: wait returns only once the run it waited for has ended, with that run's result
-          \cup (IF Ev.call = "WaitPipeline" /\ st.startCalls > 0
+          \* (not judged while a Start call is in flight: the wait overlaps it, and which run - the failed one or
+          \*  the one being started, whose Start has already discarded the old result - it waited for is open)
+          \cup (IF Ev.call = "WaitPipeline" /\ st.startCalls > 0 /\ ~st.startOpen
                   THEN Add(~(nil /\ st.status = Degraded), "WaitReturnsOwnResult", "nil although the run failed")
                   ELSE {})
           \* C11/C12: once a run has ended the pipeline can be started again
